@@ -1,0 +1,195 @@
+//go:build verif
+
+package edwards25519
+
+import (
+	. "github.com/cloudflare/pat-go/internal/vspec"
+)
+
+// The arithmetic kernels of this package (scalar reduction and multiplication, field arithmetic, point
+// decoding, scalar multiplication) are NOT verified: the contracts below are assumed (//@ trusted). They
+// state what the callers in package ed25519 rely on, over an abstract model: a scalar is its value
+// modulo the group order L, a point is its canonical 32-byte encoding.
+
+// EdL is the order of the prime-order subgroup, 2^252 + 27742317777372353535851937790883648493.
+//
+//@ spec opaque
+func EdL() Mathint { return 0 }
+
+// LE is the little-endian value of a byte string.
+//
+//@ spec opaque
+func LE(s string) Mathint { return 0 }
+
+// EdDecOK: s (32 bytes) decodes to a curve point (RFC 8032 section 5.1.3, non-canonical y accepted);
+// EdCanon: the canonical encoding of the decoded point.
+//
+//@ spec opaque
+func EdDecOK(s string) bool { return false }
+
+//@ spec opaque
+func EdCanon(s string) string { return "" }
+
+// EdMul(k, p): encoding of k*P; EdBase(k): encoding of k*B; EdNeg(p): encoding of -P;
+// EdDouble(a, p, b): encoding of a*P + b*B.
+//
+//@ spec opaque
+func EdMul(k Mathint, p string) string { return "" }
+
+//@ spec opaque
+func EdBase(k Mathint) string { return "" }
+
+//@ spec opaque
+func EdNeg(p string) string { return "" }
+
+//@ spec opaque
+func EdDouble(a Mathint, p string, b Mathint) string { return "" }
+
+//@ lemma auto trusted
+//@ ensures EdL() > 1 && LE(s) >= 0
+func axEdBasics(s string) {}
+
+//@ lemma auto trusted
+//@ ensures len(EdMul(k, p)) == 32 && len(EdBase(k)) == 32 && len(EdCanon(p)) == 32
+func axEdLens(k Mathint, p string) {}
+
+// Ghost state of the objects.
+//
+//@ spec ghost
+func ScVal(s *Scalar) Mathint { return 0 }
+
+//@ spec ghost
+func PtEnc(p *Point) string { return "" }
+
+//@ spec ghost
+func PtInit(p *Point) bool { return false }
+
+//@ func NewScalar() (s *Scalar)
+//@ trusted kernel model
+//@ ensures s != nil && fresh(s) && ScVal(s) == 0
+//@ assigns none
+//@ end
+
+//@ func (s *Scalar) SetBytes(x []byte) (r *Scalar)
+//@ trusted kernel (scReduce)
+//@ requires len(x) == 32
+//@ ensures r == s && ScVal(s) == LE(string(x))%EdL()
+//@ assigns *s, ghost(ScVal(s))
+//@ end
+
+//@ func (s *Scalar) SetBytesWithClamping(x []byte) (r *Scalar)
+//@ trusted kernel (scReduce)
+//@ requires len(x) == 32
+//@ ensures r == s && ScVal(s) == EdClamp(string(x))%EdL()
+//@ assigns *s, ghost(ScVal(s))
+//@ end
+
+// EdClamp: the clamped little-endian value of 32 bytes (RFC 8032 section 5.1.5).
+//
+//@ spec opaque
+func EdClamp(s string) Mathint { return 0 }
+
+//@ func (s *Scalar) SetUniformBytes(x []byte) (r *Scalar)
+//@ trusted kernel (scReduce)
+//@ requires len(x) == 64
+//@ ensures r == s && ScVal(s) == LE(string(x))%EdL()
+//@ assigns *s, ghost(ScVal(s))
+//@ end
+
+//@ func (s *Scalar) SetCanonicalBytes(x []byte) (r *Scalar, err error)
+//@ trusted kernel (isReduced)
+//@ ensures (err == nil) == (len(x) == 32 && LE(string(x)) < EdL())
+//@ ensures err == nil ==> r == s && ScVal(s) == LE(string(x))
+//@ ensures err != nil ==> r == nil && ScVal(s) == old(ScVal(s))
+//@ assigns *s, ghost(ScVal(s))
+//@ end
+
+//@ func (s *Scalar) Set(x *Scalar) (r *Scalar)
+//@ trusted kernel model
+//@ requires x != nil
+//@ ensures r == s && ScVal(s) == old(ScVal(x))
+//@ assigns *s, ghost(ScVal(s))
+//@ end
+
+// ModInverse: the inverse modulo L (dereferences nil for the value 0: a precondition).
+//
+//@ func (s *Scalar) ModInverse() (r *Scalar)
+//@ trusted kernel (math/big inversion and byte reversal)
+//@ requires ScVal(s) != 0
+//@ ensures r == s && ScVal(s) == ModInv(old(ScVal(s)), EdL())
+//@ assigns *s, ghost(ScVal(s))
+//@ end
+
+//@ func (s *Scalar) Multiply(x *Scalar, y *Scalar) (r *Scalar)
+//@ trusted kernel (scMulAdd)
+//@ requires x != nil && y != nil
+//@ ensures r == s && ScVal(s) == (old(ScVal(x))*old(ScVal(y)))%EdL()
+//@ assigns *s, ghost(ScVal(s))
+//@ end
+
+//@ func (s *Scalar) MultiplyAdd(x *Scalar, y *Scalar, z *Scalar) (r *Scalar)
+//@ trusted kernel (scMulAdd)
+//@ requires x != nil && y != nil && z != nil
+//@ ensures r == s && ScVal(s) == (old(ScVal(x))*old(ScVal(y))+old(ScVal(z)))%EdL()
+//@ assigns *s, ghost(ScVal(s))
+//@ end
+
+// ScBytes(v): the canonical 32-byte little-endian encoding of a reduced scalar.
+//
+//@ spec opaque
+func ScBytes(v Mathint) string { return "" }
+
+//@ lemma auto trusted
+//@ ensures len(ScBytes(v)) == 32 && (v >= 0 && v < EdL() ==> LE(ScBytes(v)) == v)
+func axScBytes(v Mathint) {}
+
+//@ func (s *Scalar) Bytes() (res []byte)
+//@ trusted kernel model
+//@ ensures string(res) == ScBytes(ScVal(s)) && len(res) == 32 && fresh(res)
+//@ assigns none
+//@ end
+
+//@ func (v *Point) SetBytes(x []byte) (r *Point, err error)
+//@ trusted kernel (field arithmetic, SqrtRatio)
+//@ ensures (err == nil) == (len(x) == 32 && EdDecOK(string(x)))
+//@ ensures err == nil ==> r == v && PtEnc(v) == EdCanon(string(x)) && PtInit(v)
+//@ ensures err != nil ==> r == nil
+//@ assigns *v, ghost(PtEnc(v)), ghost(PtInit(v))
+//@ end
+
+//@ func (v *Point) ScalarMult(x *Scalar, q *Point) (r *Point)
+//@ trusted kernel (scalar multiplication)
+//@ requires x != nil && q != nil && PtInit(q)
+//@ ensures r == v && PtEnc(v) == EdMul(old(ScVal(x)), old(PtEnc(q))) && PtInit(v)
+//@ assigns *v, ghost(PtEnc(v)), ghost(PtInit(v))
+//@ end
+
+//@ func (v *Point) ScalarBaseMult(x *Scalar) (r *Point)
+//@ trusted kernel (fixed-base scalar multiplication)
+//@ requires x != nil
+//@ ensures r == v && PtEnc(v) == EdBase(ScVal(x)) && PtInit(v)
+//@ assigns *v, ghost(PtEnc(v)), ghost(PtInit(v))
+//@ end
+
+//@ func (v *Point) Negate(p *Point) (r *Point)
+//@ trusted kernel (field negation)
+//@ requires p != nil && PtInit(p)
+//@ ensures r == v && PtEnc(v) == EdNeg(old(PtEnc(p))) && PtInit(v)
+//@ assigns *v, ghost(PtEnc(v)), ghost(PtInit(v))
+//@ end
+
+//@ func (v *Point) VarTimeDoubleScalarBaseMult(a *Scalar, A *Point, b *Scalar) (r *Point)
+//@ trusted kernel (double-scalar multiplication)
+//@ requires a != nil && A != nil && b != nil && PtInit(A)
+//@ ensures r == v && PtEnc(v) == EdDouble(ScVal(a), old(PtEnc(A)), ScVal(b)) && PtInit(v)
+//@ assigns *v, ghost(PtEnc(v)), ghost(PtInit(v))
+//@ end
+
+// Bytes panics (checkInitialized) for a Point that was never set.
+//
+//@ func (v *Point) Bytes() (res []byte)
+//@ trusted kernel (field inversion)
+//@ requires PtInit(v)
+//@ ensures string(res) == PtEnc(v) && len(res) == 32 && fresh(res)
+//@ assigns none
+//@ end
